@@ -12,6 +12,7 @@ package db
 
 import (
 	"bufio"
+	"bytes"
 	"context"
 	"encoding/json"
 	"fmt"
@@ -62,8 +63,17 @@ func (db *DB) basicImport(ctx context.Context, filepath string) (err error) {
 		}
 
 		for d.More() {
+			// Numbers are kept as they are written in the file, decoding them into float64 would
+			// alter integers that do not fit the 53 bit mantissa.
+			var rawDoc json.RawMessage
+			err = d.Decode(&rawDoc)
+			if err != nil {
+				return NewErrJSONDecode(err)
+			}
+			docDecoder := json.NewDecoder(bytes.NewReader(rawDoc))
+			docDecoder.UseNumber()
 			docMap := map[string]any{}
-			err = d.Decode(&docMap)
+			err = docDecoder.Decode(&docMap)
 			if err != nil {
 				return NewErrJSONDecode(err)
 			}
@@ -84,7 +94,11 @@ func (db *DB) basicImport(ctx context.Context, filepath string) (err error) {
 			delete(docMap, request.DocIDFieldName)
 			delete(docMap, request.NewDocIDFieldName)
 
-			doc, err := client.NewDocFromMap(docMap, col.Definition())
+			docJSON, err := json.Marshal(docMap)
+			if err != nil {
+				return NewErrDocFromMap(err)
+			}
+			doc, err := client.NewDocFromJSON(docJSON, col.Definition())
 			if err != nil {
 				return NewErrDocFromMap(err)
 			}
